@@ -377,6 +377,12 @@ func (p *Parent) runBatch(s Stage, bin string, b int, timeout int) BatchResult {
 		}
 		p.mu.Unlock()
 	}
+	if s.Race && code == 66 && r.Completed {
+		// 66 is the race detector's exit status when it reported races; the
+		// reports themselves are collected from the race log below
+		code = 0
+		r.ExitCode = 0
+	}
 	if code != 0 || !r.Completed {
 		jb, _ := os.ReadFile(filepath.Join(dir, "journal"))
 		r.LastCase = string(jb)
